@@ -3,7 +3,7 @@
    No Extract Constant directive is used. *)
 From Coq Require Import ExtrOcamlBasic.
 From Coq Require Import ZArith NArith List.
-From V Require Import Model.Quorum Model.Median Model.ZMap Model.HgImpl Model.Store Model.NodeModel.
+From V Require Import Model.Quorum Model.Median Model.ZMap Model.HgImpl Model.Store Model.NodeModel Model.HgSpec.
 Extraction Language OCaml.
 Set Extraction KeepSingleton.
 Separate Extraction Z.add Z.mul Z.div Z.modulo Z.opp Z.sub Z.of_nat Z.to_nat Z.of_N Z.to_N Z.eqb Z.ltb Z.leb
@@ -12,4 +12,5 @@ Separate Extraction Z.add Z.mul Z.div Z.modulo Z.opp Z.sub Z.of_nat Z.to_nat Z.o
   Median.median ZMap.zelements ZMap.zget
   HgImpl.init_hg HgImpl.insert_event HgImpl.run_consensus HgImpl.insert_and_run HgImpl.process_sigpool HgImpl.known_events HgImpl.run
   Store.binit Store.bstep Store.brun
-  NodeModel.pools0 NodeModel.pstep NodeModel.busy.
+  NodeModel.pools0 NodeModel.pstep NodeModel.busy
+  HgSpec.spec_mismatches.
